@@ -42,7 +42,30 @@ ANCHORS = [
     ('pjrpc/client/client.py', 'AbstractClient._send'), ('pjrpc/client/client.py', 'AbstractAsyncClient._send'),
 ]
 OUTCOMES = ['ok', 'listed', 'unlisted', 'exc-listed', 'exc-unlisted', 'undecodable', 'invalid-doc', 'identity', 'base-exc',
-            'cancelled-raised', 'cancel-task', 'exc-stopiteration']
+            'cancelled-raised', 'cancel-task', 'exc-stopiteration', 'exc-group', 'exc-kbdint', 'exc-sysexit']
+# exc-group: an ExceptionGroup holding one exception of a listed type (what a task-group based transport raises): the group is
+# what the attempt ended in, it is not of a listed type. exc-kbdint / exc-sysexit: Ctrl-C / sys.exit() from a signal
+# handler while the transport blocks - BaseExceptions like any other as far as "every begin gets its completion" goes.
+RAISING = ('exc-listed', 'exc-unlisted', 'base-exc', 'cancelled-raised', 'exc-stopiteration', 'exc-group', 'exc-kbdint', 'exc-sysexit')
+
+
+def _raise_for(o, k):
+    if o == 'exc-group':
+        return ExceptionGroup(f'attempt{k}', [ConnectionError('inner')])
+    return {'exc-listed': ConnectionError, 'exc-unlisted': KeyError, 'base-exc': Abort, 'cancelled-raised': asyncio.CancelledError,
+            'exc-stopiteration': StopIteration, 'exc-kbdint': KeyboardInterrupt, 'exc-sysexit': SystemExit}[o](f'attempt{k}')
+
+
+def outcome_of_all(fn, is_async):
+    """like clientside.outcome_of, but the scripted KeyboardInterrupt / SystemExit are outcomes too"""
+    try:
+        v = fn()
+        if is_async:
+            v = world.run(v)
+        return 'ret', v
+    except BaseException as e:
+        return 'exc', e
+
 FLOORS = {'*': {**{f'last:{o}': 5 for o in OUTCOMES}, 'real-cancellation': 5, 'multi-attempt-3-tracers': 20,
                 'client:sync': 200, 'client:async': 200, 'tracers:0': 20, 'tracers:1': 50, 'tracers:2': 50, 'tracers:3': 50,
                 'ctx:supplied': 100, 'ctx:default': 100, 'kind:single': 100, 'kind:batch': 50, 'kind:notification': 30,
@@ -149,11 +172,10 @@ class Script:
 
     def respond(self, o, k, text, is_notification):
         self.log.append(('transport', k))
-        if o in ('exc-listed', 'exc-unlisted', 'base-exc', 'cancelled-raised', 'exc-stopiteration'):
+        if o in RAISING:
             # (StopIteration: what a scripted transport that ran out of canned replies raises; sync clients only - inside a
             # coroutine the interpreter itself replaces it)
-            exc = {'exc-listed': ConnectionError, 'exc-unlisted': KeyError, 'base-exc': Abort,
-                   'cancelled-raised': asyncio.CancelledError, 'exc-stopiteration': StopIteration}[o](f'attempt{k}')
+            exc = _raise_for(o, k)
             self.raised[k] = exc
             raise exc
         if is_notification:
@@ -251,9 +273,9 @@ def run_case(ctx, n_tracers, attempts, script, kind, supplied_ctx, is_async, ins
         try:
             raise Unrelated('the caller is busy handling this')
         except Unrelated:
-            st, out = clientside.outcome_of(op, is_async)
+            st, out = outcome_of_all(op, is_async)
     else:
-        st, out = clientside.outcome_of(op, is_async)
+        st, out = outcome_of_all(op, is_async)
 
     # ---- model: which attempts happen, and how each ends
     def kind_of(o):
@@ -264,14 +286,15 @@ def run_case(ctx, n_tracers, attempts, script, kind, supplied_ctx, is_async, ins
         exc = {'exc-listed': ConnectionError(), 'exc-unlisted': KeyError(), 'undecodable': ValueError(),
                'invalid-doc': DeserializationError(), 'identity': IdentityError(), 'base-exc': Abort(),
                'cancelled-raised': asyncio.CancelledError(), 'cancel-task': asyncio.CancelledError(),
-               'unexpected-body': pjrpc.exceptions.BaseError(), 'exc-stopiteration': StopIteration()}[o]
+               'unexpected-body': pjrpc.exceptions.BaseError(), 'exc-stopiteration': StopIteration(),
+               'exc-group': ExceptionGroup('g', [ConnectionError()]), 'exc-kbdint': KeyboardInterrupt(), 'exc-sysexit': SystemExit()}[o]
         return {'kind': 'exception', 'exc': exc}
 
     is_notif = kind == 'notification'
     eff_script = list(script)
     if is_notif:
         # bodies are not read for notifications: response-shaped outcomes all mean "transport returned"
-        eff_script = [o if o in ('exc-listed', 'exc-unlisted', 'base-exc', 'cancelled-raised', 'cancel-task', 'exc-stopiteration') else
+        eff_script = [o if o in RAISING + ('cancel-task',) else
                       ('unexpected-body' if (strict and notif_body) else 'ok') for o in script]
     delays = [0.0] * attempts if attempts is not None else None
     outcomes = [kind_of(o) for o in eff_script]
@@ -566,7 +589,7 @@ def gen(ctx):
                     for is_async in (False, True):
                         yield 'raising-tracer', dict(n_tracers=n_tr, where=where, outcome=outcome, kind=kind, is_async=is_async)
     sync_outs = [o for o in OUTCOMES if o != 'cancel-task']
-    async_outs = [o for o in OUTCOMES if o != 'exc-stopiteration']
+    async_outs = [o for o in OUTCOMES if o not in ('exc-stopiteration', 'exc-kbdint', 'exc-sysexit')]
     for n_req in (2, 3):
         for outcomes in itertools.product(('ok', 'error', 'exc'), repeat=n_req):
             for order in itertools.permutations(range(n_req)):
